@@ -35,7 +35,7 @@ REQUIRED = {"wild.streams_restored_after_the_run": {"quick": 8, "thorough": 300}
             "report.failing_step_has_exactly_its_scenarios_output": {"quick": 400, "thorough": 20000},
             "formatter.no_output_of_passing_scenarios": {"quick": 300, "thorough": 15000},
             "run.streams_restored_at_end": {"quick": 600, "thorough": 30000}}
-REQUIRED_SEEN = {"junit_forces_capture": ["with_some_switch_off"], "failing_step_argument": ["doc_string", "table", "none"], "junit_output_habit": ["plain", "control_sequences"], "reported_step_status": ["failed", "error", "pending"], "switches": ["out1err1log1", "out1err1log0", "out1err0log1", "out1err0log0", "out0err1log1", "out0err1log0",
+REQUIRED_SEEN = {"junit_forces_capture": ["with_some_switch_off"], "hooks_log_before_the_first_scenario": ["yes"], "failing_step_argument": ["doc_string", "table", "none"], "junit_output_habit": ["plain", "control_sequences"], "reported_step_status": ["failed", "error", "pending"], "switches": ["out1err1log1", "out1err1log0", "out1err0log1", "out1err0log0", "out0err1log1", "out0err1log0",
                               "out0err0log1", "out0err0log0"],
                  "log_habit": ["plain", "flush", "bulk", "peek", "tee_only"], "setup_logging_from_hook": ["DEBUG", "WARNING"],
                  "capture_switched_at_runtime": ["per scenario"],
@@ -242,6 +242,10 @@ def run_case(lab, mon, case, rng, sample=False):
             for lv in ("DEBUG", "INFO", "WARNING", "ERROR"):
                 logging.getLogger("bvm.hook").log(getattr(logging, lv), "[H|%s|%s|%s]", name, elem.name, lv)
             hook_logged.append((name, elem.name))
+        if case.get("early_hook_records") and name in ("before_all", "before_feature", "before_tag", "before_rule"):
+            # hooks that run BEFORE a scenario's capture is set up log something (a start-up message): the logging configuration
+            # that is in force before a scenario is the one in force after it
+            logging.getLogger("bvm.early").warning("start-up record from %s", name)
         if name in ("before_step", "after_step"):
             sc = getattr(context, "scenario", None)
             sid = elem.name.split(" ")[0]
@@ -590,6 +594,9 @@ def run(spec, mon):
                 nested[text] = sub
                 case["program"]["outcomes"][sub] = "pass"
         case["nested"] = nested
+        if i % 3 == 1:
+            case["early_hook_records"] = True
+            mon.seen("hooks_log_before_the_first_scenario", "yes")
         if (i // 8) % 2 == 0:       # (independent of the switch combination, which cycles with i % 8)
             case["root_level"] = rng.choice([logging.NOTSET, logging.DEBUG, logging.INFO, logging.WARNING, logging.ERROR])
         if i % 5 == 2:
